@@ -465,6 +465,15 @@ class SSHConfig:
                 if args:
                     self._error(f'Extra data at end: {" ".join(args)}')
 
+    def expand_tokens(self) -> None:
+        """Expand percent tokens once everything has been read
+
+           Tokens stand for the final values of the host, user and port,
+           which lines after the one containing the token (or after the
+           Include of the file containing it) can still set.
+
+        """
+
         self._set_tokens()
 
         for option in self._percent_expand:
@@ -502,6 +511,7 @@ class SSHConfig:
             for path in paths:
                 config.parse(Path(path))
 
+            config.expand_tokens()
             config.loaded = True
 
         return config
